@@ -43,63 +43,220 @@ def _rename(o, off_l, off_b, off_p):
     return n
 
 
-def _opt_inner(ty):
-    pre = "std::option::Option<"
-    return ty[len(pre):-1] if ty.startswith(pre) and ty.endswith(">") else None
+def _split_top(inner):
+    args, depth, cur = [], 0, ""
+    for j, ch in enumerate(inner):
+        if ch in "<({[":
+            depth += 1
+        elif ch in ")}]":
+            depth -= 1
+        elif ch == ">" and not (j > 0 and inner[j - 1] == "-"):
+            depth -= 1
+        if ch == "," and depth == 0:
+            args.append(cur.strip())
+            cur = ""
+        else:
+            cur += ch
+    if cur.strip():
+        args.append(cur.strip())
+    return args
 
 
-def desugar_combinators(m):
-    """`Option::and_then(o, f)` / `Option::map(o, f)` with `f` a function item are rewritten to the match they
-    abbreviate (None -> None; Some(v) -> f(v) / Some(f(v))), so that a helper passed by name is seen like a
-    helper called directly.  This is std's documented definition of the two combinators."""
+def _enum_args(ty):
+    """('opt', [T]) / ('res', [T, E]) for Option<T> / Result<T, E> type strings."""
+    for pre, kind in (("std::option::Option<", "opt"), ("std::result::Result<", "res")):
+        if ty.startswith(pre) and ty.endswith(">"):
+            return kind, _split_top(ty[len(pre):-1])
+    return None, None
+
+
+# std's documented definitions of the combinators, as (arm for variant 0, arm for variant 1);
+# Option: variant 0 = None, 1 = Some(v);  Result: variant 0 = Ok(v), 1 = Err(e).
+# arm := ("none",) | ("keep",) | ("val", X) | ("some", X) | ("ok", X) | ("err", X);  X := "payload" | ("call", arg index of the callable, takes payload?)
+# | ("arg", index of a plain value argument)
+COMBINATORS = {
+    "std::option::Option::<T>::map": (("none",), ("some", ("call", 1, True))),
+    "std::option::Option::<T>::and_then": (("none",), ("val", ("call", 1, True))),
+    "std::option::Option::<T>::unwrap_or_else": (("val", ("call", 1, False)), ("val", "payload")),
+    "std::option::Option::<T>::or_else": (("val", ("call", 1, False)), ("keep",)),
+    "std::option::Option::<T>::map_or": (("val", ("arg", 1)), ("val", ("call", 2, True))),
+    "std::option::Option::<T>::map_or_else": (("val", ("call", 1, False)), ("val", ("call", 2, True))),
+    "std::option::Option::<T>::ok_or_else": (("err", ("call", 1, False)), ("ok", "payload")),
+    "std::result::Result::<T, E>::map": (("ok", ("call", 1, True)), ("keep",)),
+    "std::result::Result::<T, E>::map_err": (("keep",), ("err", ("call", 1, True))),
+    "std::result::Result::<T, E>::and_then": (("val", ("call", 1, True)), ("keep",)),
+    "std::result::Result::<T, E>::unwrap_or_else": (("val", "payload"), ("val", ("call", 1, True))),
+    "std::result::Result::<T, E>::or_else": (("keep",), ("val", ("call", 1, True))),
+    "std::result::Result::<T, E>::map_or": (("val", ("call", 2, True)), ("val", ("arg", 1))),
+    "std::result::Result::<T, E>::map_or_else": (("val", ("call", 2, True)), ("val", ("call", 1, True))),
+    "std::result::Result::<T, E>::ok": (("some", "payload"), ("none",)),
+}
+VARIANTS = {"opt": (("None", None), ("Some", "0")), "res": (("Ok", "0"), ("Err", "0"))}
+ADT = {"opt": "std::option::Option", "res": "std::result::Result"}
+
+
+def _closure_defs(m):
+    """{local: closure key} for locals defined exactly once by a closure aggregate."""
+    seen, out = {}, {}
+    for b in m["blocks"]:
+        for s in b["stmts"]:
+            if s["k"] == "assign" and not s["place"]["p"]:
+                l = s["place"]["l"]
+                seen[l] = seen.get(l, 0) + 1
+                if s["rv"]["k"] == "aggregate" and s["rv"].get("agg") == "closure":
+                    out[l] = s["rv"]["closure"]
+        t = b["term"]
+        if t["k"] == "call" and not t["dest"]["p"]:
+            seen[t["dest"]["l"]] = seen.get(t["dest"]["l"], 0) + 1
+    return {l: k for l, k in out.items() if seen.get(l) == 1}
+
+
+def desugar_combinators(m, prog=None):
+    """Option / Result combinators whose callable is a function item or a closure created in this function are rewritten to the
+    `match` they abbreviate (std's documented definitions, table COMBINATORS), the callable becoming an ordinary call that the
+    inliner can splice in.  A helper passed by name, or a block moved into a closure handed to `map` / `and_then` / `unwrap_or_else`,
+    is then seen like code written in place."""
+    cdefs = _closure_defs(m)
     n0 = len(m["blocks"])
     for bi in range(n0):
         b = m["blocks"][bi]
         t = b["term"]
-        if b.get("cleanup") or t["k"] != "call" or "callee" not in t:
+        if b.get("cleanup") or t["k"] != "call" or "callee" not in t or t.get("target") is None or t["dest"]["p"]:
             continue
-        name = t["callee"].get("path", "")
-        if name not in ("std::option::Option::<T>::and_then", "std::option::Option::<T>::map"):
+        spec = COMBINATORS.get(t["callee"].get("path", ""))
+        if spec is None or not t["args"] or t["args"][0]["k"] == "const" or t["args"][0]["place"]["p"]:
             continue
-        if len(t["args"]) != 2 or t["args"][1].get("k") != "const" or "fn" not in t["args"][1] or t.get("target") is None:
+        sty = t["args"][0]["place"]["ty"]
+        kind, targs = _enum_args(sty)
+        if kind is None or (t["callee"]["path"].startswith("std::option") != (kind == "opt")):
             continue
-        if t["dest"]["p"] or t["args"][0]["k"] == "const":
-            continue
-        oty = t["args"][0]["place"]["ty"]
-        inner = _opt_inner(oty)
         dty = t["dest"]["ty"]
-        if inner is None or _opt_inner(dty) is None:
-            continue
+        dkind, dargs = _enum_args(dty)
         loc = t.get("loc", {"file": "", "line": None})
+
+        # every callable used must be resolvable
+        def callable_of(ai):
+            if ai >= len(t["args"]):
+                return None
+            op = t["args"][ai]
+            if op["k"] == "const":
+                return ("fn", op["fn"]) if "fn" in op else None
+            if op["place"]["p"]:
+                return None
+            ck = cdefs.get(op["place"]["l"])
+            if ck is None or prog is None or ck not in prog.fns:
+                return None
+            return ("closure", ck, op)
+        ok = True
+        for arm in spec:
+            x = arm[1] if len(arm) > 1 else None
+            if isinstance(x, tuple) and x[0] == "call" and callable_of(x[1]) is None:
+                ok = False
+            if isinstance(x, tuple) and x[0] == "arg" and x[1] >= len(t["args"]):
+                ok = False
+            if arm[0] in ("some", "ok", "err", "none") and dkind is None:
+                ok = False
+            if arm[0] == "keep" and dty != sty and not (dkind == kind):
+                ok = False
+        if not ok:
+            continue
         L = len(m["locals"])
-        l_opt, l_d, l_v, l_r = L, L + 1, L + 2, L + 3
-        is_map = name.endswith("::map")
-        m["locals"].extend([{"ty": oty, "mut": True}, {"ty": "isize", "mut": True}, {"ty": inner, "mut": True},
-                            {"ty": _opt_inner(dty) if is_map else dty, "mut": True}])
-        B = len(m["blocks"])
-        b_none, b_some = B, B + 1
-        b["stmts"].append({"k": "assign", "place": {"l": l_opt, "p": [], "ty": oty}, "rv": {"k": "use", "op": t["args"][0]}, "loc": loc})
-        b["stmts"].append({"k": "assign", "place": {"l": l_d, "p": [], "ty": "isize"}, "rv": {"k": "discr", "place": {"l": l_opt, "p": [], "ty": oty}}, "loc": loc})
+        l_s, l_d = L, L + 1
+        m["locals"].extend([{"ty": sty, "mut": True}, {"ty": "isize", "mut": True}])
+        b["stmts"].append({"k": "assign", "place": {"l": l_s, "p": [], "ty": sty}, "rv": {"k": "use", "op": t["args"][0]}, "loc": loc})
+        b["stmts"].append({"k": "assign", "place": {"l": l_d, "p": [], "ty": "isize"}, "rv": {"k": "discr", "place": {"l": l_s, "p": [], "ty": sty}}, "loc": loc})
+        arm_blocks = []
+        for vi, arm in enumerate(spec):
+            vname, vfield = VARIANTS[kind][vi]
+            pty = targs[0] if (kind == "opt" or vi == 0) else (targs[1] if len(targs) > 1 else "?")
+            stmts = []
+            blocks_extra = []
+
+            def payload_op():
+                return {"k": "move", "place": {"l": l_s, "p": [{"dc": vi, "n": vname}, {"f": 0, "n": "0"}], "ty": pty}}
+
+            def agg(adt_kind, variant, vidx, ops):
+                return {"k": "aggregate", "agg": "adt", "adt": ADT[adt_kind], "variant": variant, "vidx": vidx, "fields": ["0"] if ops else [], "ops": ops}
+            head = {"stmts": stmts, "term": None}
+            x = arm[1] if len(arm) > 1 else None
+            value_op = None
+            call_term = None
+            if x == "payload":
+                value_op = payload_op()
+            elif isinstance(x, tuple) and x[0] == "arg":
+                value_op = t["args"][x[1]]
+            elif isinstance(x, tuple) and x[0] == "call":
+                cal = callable_of(x[1])
+                # result type of the call
+                if arm[0] == "val":
+                    rty = dty
+                elif arm[0] == "some":
+                    rty = dargs[0]
+                elif arm[0] == "ok":
+                    rty = dargs[0]
+                else:
+                    rty = dargs[1] if len(dargs) > 1 else "?"
+                l_r = len(m["locals"])
+                m["locals"].append({"ty": rty, "mut": True})
+                cargs = []
+                if cal[0] == "closure":
+                    ck, cop = cal[1], cal[2]
+                    envty = prog.fns[ck]["mir"]["locals"][1]["ty"]
+                    if envty.startswith("&"):
+                        l_e = len(m["locals"])
+                        m["locals"].append({"ty": envty, "mut": True})
+                        stmts.append({"k": "assign", "place": {"l": l_e, "p": [], "ty": envty},
+                                      "rv": {"k": "ref", "mut": envty.startswith("&mut "), "place": {"l": cop["place"]["l"], "p": [], "ty": cop["place"]["ty"]}}, "loc": loc})
+                        cargs.append({"k": "move", "place": {"l": l_e, "p": [], "ty": envty}})
+                    else:
+                        cargs.append({"k": "move", "place": {"l": cop["place"]["l"], "p": [], "ty": cop["place"]["ty"]}})
+                    callee = {"path": ck, "full": ck, "local": True, "name": "{closure}", "substs": [], "rkind": "item", "resolved": ck, "rlocal": True, "synth": True}
+                    want_args = prog.fns[ck]["mir"]["arg_count"]
+                else:
+                    callee = dict(cal[1])
+                    want_args = None
+                if x[2]:
+                    l_v = len(m["locals"])
+                    m["locals"].append({"ty": pty, "mut": True})
+                    stmts.append({"k": "assign", "place": {"l": l_v, "p": [], "ty": pty}, "rv": {"k": "use", "op": payload_op()}, "loc": loc})
+                    cargs.append({"k": "move", "place": {"l": l_v, "p": [], "ty": pty}})
+                if want_args is not None and want_args != len(cargs):
+                    ok = False
+                    break
+                call_term = {"k": "call", "callee": callee, "args": cargs, "dest": {"l": l_r, "p": [], "ty": rty}, "unwind": None, "loc": loc}
+                value_op = {"k": "move", "place": {"l": l_r, "p": [], "ty": rty}}
+            # final assignment to the destination
+            if arm[0] == "none":
+                fin = agg("opt", "None", 0, [])
+            elif arm[0] == "keep":
+                fin = {"k": "use", "op": {"k": "move", "place": {"l": l_s, "p": [], "ty": sty}}} if dty == sty else \
+                    agg(kind, vname, vi, [payload_op()] if vfield is not None else [])
+            elif arm[0] == "val":
+                fin = {"k": "use", "op": value_op}
+            elif arm[0] == "some":
+                fin = agg("opt", "Some", 1, [value_op])
+            elif arm[0] == "ok":
+                fin = agg("res", "Ok", 0, [value_op])
+            else:
+                fin = agg("res", "Err", 1, [value_op])
+            fin_stmt = {"k": "assign", "place": t["dest"], "rv": fin, "loc": loc}
+            arm_blocks.append((stmts, call_term, fin_stmt))
+        if not ok or len(arm_blocks) != 2:
+            # give up on this site: undo the two statements added (the locals stay unused)
+            b["stmts"] = b["stmts"][:-2]
+            continue
+        ids = []
+        for (stmts, call_term, fin_stmt) in arm_blocks:
+            bid = len(m["blocks"])
+            ids.append(bid)
+            if call_term is None:
+                m["blocks"].append({"stmts": stmts + [fin_stmt], "term": {"k": "goto", "target": t["target"]}})
+            else:
+                call_term["target"] = bid + 1
+                m["blocks"].append({"stmts": stmts, "term": call_term})
+                m["blocks"].append({"stmts": [fin_stmt], "term": {"k": "goto", "target": t["target"]}})
         b["term"] = {"k": "switch", "discr": {"k": "move", "place": {"l": l_d, "p": [], "ty": "isize"}}, "discr_ty": "isize",
-                     "targets": [[0, b_none]], "otherwise": b_some, "loc": loc}
-        m["blocks"].append({"stmts": [{"k": "assign", "place": t["dest"], "rv": {"k": "aggregate", "agg": "adt", "adt": "std::option::Option",
-                                                                                "variant": "None", "vidx": 0, "fields": [], "ops": []}, "loc": loc}],
-                            "term": {"k": "goto", "target": t["target"]}})
-        some_stmts = [{"k": "assign", "place": {"l": l_v, "p": [], "ty": inner},
-                       "rv": {"k": "use", "op": {"k": "move", "place": {"l": l_opt, "p": [{"dc": 1, "n": "Some"}, {"f": 0, "n": "0"}], "ty": inner}}}, "loc": loc}]
-        call = {"k": "call", "callee": t["args"][1]["fn"], "args": [{"k": "move", "place": {"l": l_v, "p": [], "ty": inner}}],
-                "unwind": None, "loc": loc}
-        if is_map:
-            call["dest"] = {"l": l_r, "p": [], "ty": _opt_inner(dty)}
-            call["target"] = B + 2
-            m["blocks"].append({"stmts": some_stmts, "term": call})
-            m["blocks"].append({"stmts": [{"k": "assign", "place": t["dest"], "rv": {"k": "aggregate", "agg": "adt", "adt": "std::option::Option", "variant": "Some",
-                                                                                    "vidx": 1, "fields": ["0"], "ops": [{"k": "move", "place": {"l": l_r, "p": [], "ty": _opt_inner(dty)}}]}, "loc": loc}],
-                                "term": {"k": "goto", "target": t["target"]}})
-        else:
-            call["dest"] = t["dest"]
-            call["target"] = t["target"]
-            m["blocks"].append({"stmts": some_stmts, "term": call})
+                     "targets": [[0, ids[0]]], "otherwise": ids[1], "loc": loc}
     return m
 
 
@@ -109,7 +266,7 @@ def inline_mir(prog, key, stop, maxdepth=4, _stack=(), max_blocks=6000):
     m = copy.deepcopy(fn["mir"])
     prom = list(copy.deepcopy(fn.get("promoted") or []))
     inlined = []
-    desugar_combinators(m)
+    desugar_combinators(m, prog)
     # drop cleanup blocks' influence: keep them (ids must stay stable) but cut unwind edges
     for b in m["blocks"]:
         t = b["term"]
@@ -126,10 +283,10 @@ def inline_mir(prog, key, stop, maxdepth=4, _stack=(), max_blocks=6000):
         if c.get("rkind") != "item":
             continue
         g = c.get("resolved") if c.get("resolved") in prog.fns else (c["path"] if c["path"] in prog.fns else None)
-        if g is None or g == key or g in _stack or stop(g) or len(_stack) >= maxdepth:
+        if g is None or g == key or g in _stack or (stop(g) and not c.get("synth")) or len(_stack) >= maxdepth:
             continue
         gf = prog.fns[g]
-        if gf.get("kind") == "Closure":
+        if gf.get("kind") == "Closure" and not c.get("synth"):
             continue
         if len(m["blocks"]) + len(gf["mir"]["blocks"]) > max_blocks:
             continue
